@@ -9,21 +9,30 @@
 //! USE statement text it received.
 //!
 //! observation (after '|'):  <k0> <events> <calls> <texts> <stats>
-//!   events  C:<u>:<name>:<cs> ; R:<u>:<0|1> ; S:<q> ; F:<q>:<acked|none>      ('-' if none)
+//!   events  C:<u>:<name>:<cs> ; R:<u>:<0|1>:<highest live connection id> ; S:<q> ;
+//!           F:<q>:<acked|none>:<connection id>                                  ('-' if none)
+//!           "acked" = keyspace of the last SetKeyspace answer WRITTEN on that connection when the frame
+//!           arrives: the handler keeps its own per-connection record and applies a delayed answer only
+//!           when its delay has elapsed, so a request overtaking the acknowledgement is seen in the old
+//!           keyspace (mocknode itself marks the keyspace when the USE frame is handled)
 //!   calls   <name>:<cs>;..     every (name, flag) handed to use_keyspace         ('-' if none)
 //!   texts   <text>;..          distinct USE statement texts seen by the mock    ('-' if none)
-//!   stats   ok=<successful uses>,fr=<frames>,strict=<frames after a successful use>,cn=<connections>,nd=<nodes>,
-//!           slow=<requests abandoned after 3 s>,op=<connections the mock accepted during the scenario>
-//! or, when the session could not be built because the machine is out of loopback ports:  skip-env <reason>
+//!   stats   ok=<successful uses>,fr=<frames>,strict=<frames of requests started while a keyspace was established
+//!           by an undisturbed successful call>,late=<those on connections accepted after that call returned>,
+//!           pre=<prepared-statement frames>,dly=<USE answers delayed>,early=<frames that overtook a delayed answer>,
+//!           cn=,nd=,slow=<requests abandoned after 3 s>,op=<connections accepted>,xck=<frames where the handler's
+//!           record and mocknode's disagree>
+//! other observations:  not-run <reason> (environment: no session, mock did not start, use_keyspace exceeded the
+//! harness cap - nothing is judged; counted and capped by checks/c20.py);  invalid-accepted <name>
 use crate::{dec_name, enc_name};
 use scylla::client::PoolSize;
 use scylla::client::session::Session;
 use scylla::client::session_builder::SessionBuilder;
-use std::collections::BTreeSet;
+use std::collections::{BTreeSet, HashMap};
 use std::num::NonZeroUsize;
 use std::sync::atomic::{AtomicU64, Ordering};
 use std::sync::{Arc, Mutex};
-use std::time::Duration;
+use std::time::{Duration, Instant};
 use vh::mocknode::*;
 use vh::{Out, Rng};
 
@@ -40,11 +49,41 @@ enum UseFault {
     Cut(u32),
 }
 
+#[derive(Default)]
+struct ConnAck {
+    cur: Option<String>,
+    /// delayed SetKeyspace answers: (instant the answer is written, keyspace)
+    pending: Vec<(Instant, String)>,
+}
+impl ConnAck {
+    fn apply_due(&mut self, now: Instant) {
+        self.pending.sort_by_key(|p| p.0);
+        while !self.pending.is_empty() && self.pending[0].0 <= now {
+            let (_, k) = self.pending.remove(0);
+            self.cur = Some(k);
+        }
+    }
+}
+
 struct Shared {
     events: Mutex<Vec<String>>,
     texts: Mutex<BTreeSet<String>>,
     fault: Mutex<(UseFault, Rng)>,
+    acks: Mutex<HashMap<u64, ConnAck>>,
     frames: AtomicU64,
+    prepared_frames: AtomicU64,
+    delayed: AtomicU64,
+    early: AtomicU64,
+    xck: AtomicU64,
+}
+
+const PREP_TEXT: &str = "SELECT v FROM t WHERE p = ?";
+
+/// the keyspace a `USE` statement selects on the mock (None: the mock refuses it)
+fn use_target(text: &str) -> Option<String> {
+    let raw = text[4..].trim().trim_end_matches(';').trim();
+    let ks = if raw.len() >= 2 && raw.starts_with('"') && raw.ends_with('"') { raw[1..raw.len() - 1].to_string() } else { raw.to_ascii_lowercase() };
+    if KEYSPACES.contains(&ks.as_str()) || ks == "system" || ks == "system_schema" { Some(ks) } else { None }
 }
 
 fn marker(q: u64) -> String {
@@ -56,17 +95,31 @@ fn parse_marker(text: &str) -> Option<u64> {
 
 fn handler(sh: Arc<Shared>) -> Handler {
     Arc::new(move |ctx: &ReqCtx| {
-        if ctx.opcode != op::QUERY {
-            return None;
-        }
         let text = ctx.text.as_deref()?;
-        if text.len() >= 4 && text[..4].eq_ignore_ascii_case("USE ") {
+        if ctx.opcode == op::QUERY && text.len() >= 4 && text[..4].eq_ignore_ascii_case("USE ") {
             sh.texts.lock().unwrap().insert(text.to_string());
+            let target = use_target(text);
+            let now = Instant::now();
             let mut f = sh.fault.lock().unwrap();
             let (fault, rng) = &mut *f;
+            let mut acks = sh.acks.lock().unwrap();
+            let a = acks.entry(ctx.conn_id).or_default();
+            a.apply_due(now);
             return match *fault {
-                UseFault::None => None,
-                UseFault::Delay(ms) => Some(vec![Action::Delay(rng.range(0, ms)), Action::Default]),
+                UseFault::None => {
+                    if let Some(k) = target {
+                        a.cur = Some(k);
+                    }
+                    None
+                }
+                UseFault::Delay(ms) => {
+                    let d = rng.range(1, ms.max(1));
+                    if let Some(k) = target {
+                        a.pending.push((now + Duration::from_millis(d), k));
+                        sh.delayed.fetch_add(1, Ordering::Relaxed);
+                    }
+                    Some(vec![Action::Delay(d), Action::Default])
+                }
                 UseFault::Refuse(n) => {
                     *fault = if n > 1 { UseFault::Refuse(n - 1) } else { UseFault::None };
                     Some(vec![Action::Error(ErrorSpec::new(DbErr::Invalid, "scripted refusal"))])
@@ -81,13 +134,34 @@ fn handler(sh: Arc<Shared>) -> Handler {
                 }
             };
         }
-        if let Some(q) = parse_marker(text) {
-            let acked = match &ctx.keyspace {
+        // marked requests: unprepared QUERY with the marker in the text, or EXECUTE of PREP_TEXT with
+        // the marker as its bound bigint
+        let q = if ctx.opcode == op::QUERY {
+            parse_marker(text)
+        } else if ctx.opcode == op::EXECUTE && text == PREP_TEXT {
+            ctx.params.as_ref().and_then(|p| p.values.first()).and_then(|v| v.as_bytes()).and_then(|b| <[u8; 8]>::try_from(b).ok()).map(u64::from_be_bytes)
+        } else {
+            None
+        };
+        if let Some(q) = q {
+            let now = Instant::now();
+            let mut acks = sh.acks.lock().unwrap();
+            let a = acks.entry(ctx.conn_id).or_default();
+            a.apply_due(now);
+            if !a.pending.is_empty() {
+                sh.early.fetch_add(1, Ordering::Relaxed);
+            } else if a.cur != ctx.keyspace {
+                sh.xck.fetch_add(1, Ordering::Relaxed);
+            }
+            let acked = match &a.cur {
                 Some(k) => enc_name(k),
                 None => "none".to_string(),
             };
-            sh.events.lock().unwrap().push(format!("F:{:x}:{}", q, acked));
+            sh.events.lock().unwrap().push(format!("F:{:x}:{}:{:x}", q, acked, ctx.conn_id));
             sh.frames.fetch_add(1, Ordering::Relaxed);
+            if ctx.opcode == op::EXECUTE {
+                sh.prepared_frames.fetch_add(1, Ordering::Relaxed);
+            }
         }
         None
     })
@@ -101,6 +175,9 @@ enum Op {
     /// two use_keyspace calls at the same time (same name: supported; different names: documented as
     /// unsupported, the acceptor then only demands one of the two)
     Use2 { a: (String, bool), b: (String, bool) },
+    /// `USE <name>` executed as an ordinary statement: Session::handle_set_keyspace_response then calls
+    /// use_keyspace(<name sent by the server>, true) itself
+    UseStmt { name: String },
     Reqs { n: u32, concurrent: bool },
     Kill { node: usize, rst: bool },
     CloseOne,
@@ -130,8 +207,8 @@ fn gen_name(r: &mut Rng) -> (String, bool) {
 }
 fn gen_fault(r: &mut Rng) -> UseFault {
     match r.below(12) {
-        0..=5 => UseFault::None,
-        6 | 7 => UseFault::Delay(r.range(1, 25)),
+        0..=3 => UseFault::None,
+        4..=7 => UseFault::Delay(r.range(2, 40)),
         8 => UseFault::Refuse(r.range(1, 2) as u32),
         9 => UseFault::Silent(1),
         _ => UseFault::Cut(r.range(1, 2) as u32),
@@ -147,11 +224,13 @@ fn gen_ops(r: &mut Rng, nodes: usize, thorough: bool) -> Vec<Op> {
         let op = match r.below(16) {
             0..=4 => {
                 let (name, cs) = gen_name(r);
+                let fault = gen_fault(r);
                 Op::Use {
                     name,
                     cs,
-                    fault: gen_fault(r),
-                    reqs: if r.bool() { r.range(2, 10) as u32 } else { 0 },
+                    fault,
+                    // a delayed acknowledgement is only interesting with requests racing against it
+                    reqs: if matches!(fault, UseFault::Delay(_)) || r.bool() { r.range(3, 12) as u32 } else { 0 },
                     kill: if r.chance(1, 4) { Some(r.below(nodes as u64) as usize) } else { None },
                 }
             }
@@ -160,7 +239,8 @@ fn gen_ops(r: &mut Rng, nodes: usize, thorough: bool) -> Vec<Op> {
                 let b = if r.bool() { a.clone() } else { gen_name(r) };
                 Op::Use2 { a, b }
             }
-            6..=9 => Op::Reqs { n: r.range(4, 24) as u32, concurrent: r.bool() },
+            6..=8 => Op::Reqs { n: r.range(4, 24) as u32, concurrent: r.bool() },
+            9 => Op::UseStmt { name: (*r.pick(&["ks_a", "ks_b", "k9", "KS_A", "nope"])).into() },
             10 | 11 => Op::Kill { node: r.below(nodes as u64) as usize, rst: r.bool() },
             12 => Op::CloseOne,
             13 => Op::AddNode,
@@ -185,13 +265,31 @@ struct Ctx {
     calls: Mutex<Vec<(String, bool)>>,
     ok_uses: AtomicU64,
     slow: AtomicU64,
+    /// `not-run <reason>`: the harness gave up (environment / cap), nothing is judged
     hang: Mutex<Option<String>>,
+    /// an invalid name that use_keyspace accepted (a violation of the second sentence)
+    invalid_accepted: Mutex<Option<String>>,
+    cluster: Arc<MockCluster>,
+    prepared: Mutex<Option<scylla::statement::prepared::PreparedStatement>>,
+    use_prepared: bool,
 }
 
 impl Ctx {
+    fn max_live_conn(&self) -> u64 {
+        self.cluster.connections(None).iter().map(|c| c.conn_id).max().unwrap_or(0)
+    }
     async fn request(self: &Arc<Self>) {
         let q = self.next_q.fetch_add(1, Ordering::Relaxed);
         self.sh.events.lock().unwrap().push(format!("S:{:x}", q));
+        // every third request goes out as EXECUTE of a prepared statement (if preparing worked)
+        let prep = if self.use_prepared && q % 3 == 2 { self.prepared.lock().unwrap().clone() } else { None };
+        if let Some(ps) = prep {
+            let lim: u64 = std::env::var("C20_REQ_LIMIT_MS").ok().and_then(|s| s.parse().ok()).unwrap_or(3000);
+            if tokio::time::timeout(Duration::from_millis(lim), self.session.execute_unpaged(&ps, (q as i64,))).await.is_err() {
+                self.slow.fetch_add(1, Ordering::Relaxed);
+            }
+            return;
+        }
         // A request that does not come back within the cap is abandoned and counted (`slow=`): whether
         // requests caught by a dying connection fail promptly is property C10, not C20.
         let lim: u64 = std::env::var("C20_REQ_LIMIT_MS").ok().and_then(|s| s.parse().ok()).unwrap_or(3000);
@@ -232,17 +330,41 @@ impl Ctx {
         let ok = match res {
             Ok(r) => r.is_ok(),
             Err(_) => {
-                *self.hang.lock().unwrap() = Some(format!("use_keyspace {:?} did not return", name));
+                // liveness of use_keyspace is not what C20 states; the harness cap is an environment limit
+                *self.hang.lock().unwrap() = Some("use-keyspace-exceeded-20s".into());
                 false
             }
         };
         if valid {
-            self.sh.events.lock().unwrap().push(format!("R:{:x}:{}", u, ok as u8));
+            self.sh.events.lock().unwrap().push(format!("R:{:x}:{}:{:x}", u, ok as u8, self.max_live_conn()));
             if ok {
                 self.ok_uses.fetch_add(1, Ordering::Relaxed);
             }
         } else if ok {
-            *self.hang.lock().unwrap() = Some(format!("use_keyspace accepted the invalid name {:?}", name));
+            *self.invalid_accepted.lock().unwrap() = Some(name.to_string());
+        }
+    }
+    /// `USE <name>` as an ordinary statement; the driver then calls use_keyspace(<server name>, true)
+    async fn use_statement(self: &Arc<Self>, name: &str) {
+        let server_name = name.to_ascii_lowercase();
+        {
+            let mut c = self.calls.lock().unwrap();
+            c.push((name.to_string(), false));
+            c.push((server_name.clone(), true));
+        }
+        let u = self.next_u.fetch_add(1, Ordering::Relaxed);
+        self.sh.events.lock().unwrap().push(format!("C:{:x}:{}:1", u, enc_name(&server_name)));
+        let res = tokio::time::timeout(Duration::from_secs(20), self.session.query_unpaged(format!("USE {}", name), ())).await;
+        let ok = match res {
+            Ok(r) => r.is_ok(),
+            Err(_) => {
+                *self.hang.lock().unwrap() = Some("use-statement-exceeded-20s".into());
+                false
+            }
+        };
+        self.sh.events.lock().unwrap().push(format!("R:{:x}:{}:{:x}", u, ok as u8, self.max_live_conn()));
+        if ok {
+            self.ok_uses.fetch_add(1, Ordering::Relaxed);
         }
     }
 }
@@ -259,17 +381,35 @@ pub async fn run_scenario(sseed: u64, thorough: bool) -> String {
     }
     let cluster = match MockCluster::start(spec).await {
         Ok(c) => Arc::new(c),
-        Err(e) => return format!("error mock-start {:?}", e),
+        Err(_) => return "not-run mock-start".into(),
     };
     let sh = Arc::new(Shared {
         events: Mutex::new(Vec::new()),
         texts: Mutex::new(BTreeSet::new()),
         fault: Mutex::new((UseFault::None, Rng::new(sseed.wrapping_mul(31) + 7))),
+        acks: Mutex::new(HashMap::new()),
         frames: AtomicU64::new(0),
+        prepared_frames: AtomicU64::new(0),
+        delayed: AtomicU64::new(0),
+        early: AtomicU64::new(0),
+        xck: AtomicU64::new(0),
     });
+    cluster.on_prepare(
+        PREP_TEXT,
+        PreparedSpec {
+            id: vec![],
+            result_metadata_id: vec![],
+            bind_columns: vec![ColSpec::new("ks_a", "t", "p", CqlType::BigInt)],
+            pk_indexes: vec![],
+            result_columns: vec![],
+            lwt: false,
+        },
+    );
     cluster.set_handler(Some(handler(sh.clone())));
     let mut b = SessionBuilder::new()
         .known_node_addr(cluster.contact_point(0))
+        // own loopback source address: own ephemeral port space (no EADDRINUSE from TIME-WAIT on 127.0.0.1)
+        .local_ip_address(Some(cluster.client_ip()))
         .connection_timeout(Duration::from_millis(400))
         .pool_size(pool);
     if r.chance(1, 4) {
@@ -283,37 +423,34 @@ pub async fn run_scenario(sseed: u64, thorough: bool) -> String {
         sh.events.lock().unwrap().push(format!("C:{:x}:{}:0", 0xffffu64, enc_name(k)));
         b = b.use_keyspace(k, false);
     }
-    // The scenario can only be judged if the session comes up. Building it may fail for a reason that
-    // has nothing to do with the driver: the machine ran out of ephemeral ports on 127.0.0.1 (EADDRINUSE,
-    // os error 98; thousands of short-lived loopback connections in TIME-WAIT). That case - and only that
-    // case - is reported as `skip-env` (counted and capped by checks/c20.py), after three retries.
+    // The scenario can only be judged if the session comes up. A build failure (no ports, a 400 ms
+    // handshake missed on a loaded machine) says nothing about C20: retried, then reported as `not-run`
+    // (counted and capped by checks/c20.py).
     let mut attempt = 0;
     let session = loop {
         attempt += 1;
         match tokio::time::timeout(Duration::from_secs(20), b.clone().build()).await {
             Ok(Ok(s)) => break Arc::new(s),
+            Ok(Err(_)) | Err(_) if attempt < 4 => {
+                tokio::time::sleep(Duration::from_millis(300 * attempt)).await;
+            }
             Ok(Err(e)) => {
-                let msg = format!("{:?}", e);
-                if msg.contains("AddrInUse") {
-                    if attempt < 4 {
-                        tokio::time::sleep(Duration::from_millis(700 * attempt)).await;
-                        continue;
-                    }
-                    cluster.shutdown();
-                    return "skip-env session-build-EADDRINUSE".into();
-                }
                 cluster.shutdown();
-                return format!("error session {}", msg).replace(' ', "_");
+                let msg = format!("{:?}", e);
+                return format!("not-run session-build-{}", if msg.contains("AddrInUse") { "EADDRINUSE" } else { "failed" });
             }
             Err(_) => {
                 cluster.shutdown();
-                return "error session-timeout".into();
+                return "not-run session-build-timeout".into();
             }
         }
     };
     if builder_ks.is_some() {
-        sh.events.lock().unwrap().push(format!("R:{:x}:1", 0xffffu64));
+        let m = cluster.connections(None).iter().map(|c| c.conn_id).max().unwrap_or(0);
+        sh.events.lock().unwrap().push(format!("R:{:x}:1:{:x}", 0xffffu64, m));
     }
+    let use_prepared = r.chance(2, 3);
+    let prepared = if use_prepared { tokio::time::timeout(Duration::from_secs(10), session.prepare(PREP_TEXT)).await.ok().and_then(|r| r.ok()) } else { None };
     let cx = Arc::new(Ctx {
         sh: sh.clone(),
         session,
@@ -323,6 +460,10 @@ pub async fn run_scenario(sseed: u64, thorough: bool) -> String {
         ok_uses: AtomicU64::new(builder_ks.is_some() as u64),
         slow: AtomicU64::new(0),
         hang: Mutex::new(None),
+        invalid_accepted: Mutex::new(None),
+        cluster: cluster.clone(),
+        prepared: Mutex::new(prepared),
+        use_prepared,
     });
     let mut nodes = nodes0;
     let ops = gen_ops(&mut r, nodes0, thorough);
@@ -360,6 +501,7 @@ pub async fn run_scenario(sseed: u64, thorough: bool) -> String {
                 let _ = h1.await;
                 let _ = h2.await;
             }
+            Op::UseStmt { name } => cx.use_statement(&name).await,
             Op::Reqs { n, concurrent } => cx.requests(n, concurrent).await,
             Op::Kill { node, rst } => {
                 cluster.kill_connections(node.min(nodes - 1), if rst { CutKind::Rst } else { CutKind::Fin });
@@ -383,7 +525,7 @@ pub async fn run_scenario(sseed: u64, thorough: bool) -> String {
             }
             Op::Sleep(ms) => tokio::time::sleep(Duration::from_millis(ms)).await,
         }
-        if cx.hang.lock().unwrap().is_some() {
+        if cx.hang.lock().unwrap().is_some() || cx.invalid_accepted.lock().unwrap().is_some() {
             break;
         }
     }
@@ -410,53 +552,84 @@ pub async fn run_scenario(sseed: u64, thorough: bool) -> String {
     let calls = cx.calls.lock().unwrap().clone();
     let ok_uses = cx.ok_uses.load(Ordering::Relaxed);
     let slow = cx.slow.load(Ordering::Relaxed);
+    let invalid_accepted = cx.invalid_accepted.lock().unwrap().clone();
     cluster.set_handler(None);
     drop(cx);
     cluster.shutdown();
-    if let Some(h) = hang {
-        return format!("error {}", h.replace(' ', "_"));
+    if let Some(n) = invalid_accepted {
+        return format!("invalid-accepted {}", enc_name(&n));
     }
-    // strict frames: frames of requests started after a successful return with no call since
-    let mut strict = 0u64;
+    if let Some(h) = hang {
+        return format!("not-run {}", h.replace(' ', "_"));
+    }
+    // strict frames: frames of requests that STARTED while a keyspace was established by a call that
+    // began with no call in flight, was not overlapped and returned Ok, no call having started since
+    // (the same bookkeeping as the extracted property predicate prop_violb); late = those of them that
+    // arrived on a connection accepted after that call returned
+    let (mut strict, mut late) = (0u64, 0u64);
     {
-        let mut clean_ok = false;
-        let mut started_clean: BTreeSet<String> = BTreeSet::new();
+        let mut pend: Vec<String> = Vec::new();
+        let mut cand: Option<String> = None;
+        let mut est: Option<u64> = None; // highest live connection id when the call returned
+        let mut open: HashMap<String, u64> = HashMap::new();
         for e in &events {
             let f: Vec<&str> = e.split(':').collect();
             match f[0] {
                 "C" => {
-                    clean_ok = false;
-                    started_clean.clear();
+                    cand = if pend.is_empty() { Some(f[1].to_string()) } else { None };
+                    pend.push(f[1].to_string());
+                    est = None;
+                    open.clear();
                 }
-                "R" => clean_ok = f[2] == "1",
-                "S" if clean_ok => {
-                    started_clean.insert(f[1].to_string());
+                "R" => {
+                    pend.retain(|u| u != f[1]);
+                    if cand.as_deref() == Some(f[1]) {
+                        cand = None;
+                        est = if f[2] == "1" { Some(u64::from_str_radix(f[3], 16).unwrap_or(u64::MAX)) } else { None };
+                    }
                 }
-                "F" if started_clean.contains(f[1]) => strict += 1,
+                "S" => {
+                    open.remove(f[1]);
+                    if let Some(m) = est {
+                        open.insert(f[1].to_string(), m);
+                    }
+                }
+                "F" => {
+                    if let Some(m) = open.get(f[1]) {
+                        strict += 1;
+                        if u64::from_str_radix(f[3], 16).unwrap_or(0) > *m {
+                            late += 1;
+                        }
+                    }
+                }
                 _ => {}
             }
         }
     }
     let join = |v: Vec<String>| if v.is_empty() { "-".to_string() } else { v.join(";") };
     format!(
-        "none {} {} {} ok={},fr={},strict={},cn={},nd={},slow={},op={}",
+        "none {} {} {} ok={},fr={},strict={},late={},pre={},dly={},early={},cn={},nd={},slow={},op={},xck={}",
         join(events),
         join(calls.iter().map(|(n, c)| format!("{}:{}", enc_name(n), *c as u8)).collect()),
         join(texts.iter().map(|t| enc_name(t)).collect()),
         ok_uses,
         sh.frames.load(Ordering::Relaxed),
         strict,
+        late,
+        sh.prepared_frames.load(Ordering::Relaxed),
+        sh.delayed.load(Ordering::Relaxed),
+        sh.early.load(Ordering::Relaxed),
         conns,
         nodes,
         slow,
-        opened
+        opened,
+        sh.xck.load(Ordering::Relaxed)
     )
 }
 
 fn run_many(seeds: Vec<u64>, thorough: bool, out: &mut Out) {
     let tag = if thorough { "t" } else { "q" };
-    // Loopback ports are a shared, slowly replenished resource (TIME-WAIT 60 s, ~28 k ephemeral ports,
-    // every client connection leaves from 127.0.0.1): keep the connection rate modest.
+    // every scenario has its own client source address (MockCluster::client_ip); still keep the rate modest
     let par: usize = std::env::var("C20_PAR").ok().and_then(|s| s.parse().ok()).unwrap_or(if thorough { 4 } else { 8 });
     let rt = tokio::runtime::Builder::new_multi_thread().worker_threads(8).enable_all().build().unwrap();
     let results: Vec<(u64, String)> = rt.block_on(async move {
